@@ -766,3 +766,26 @@ Proof.
     rewrite N.eqb_refl. reflexivity. }
   cbn [andb]. rewrite P. rewrite !Bool.orb_true_r. cbn [orb]. eexists. reflexivity.
 Qed.
+
+(* ================================================================== replies: what is serialised as variant k is parsed as variant k *)
+From Zvt Require Import EnumProps.
+
+Theorem reply_roundtrip fuel vs k nm c v b :
+  nodup_cf (map v_cf vs) = true -> nth_error vs k = Some (nm, c) ->
+  c_class c < 256 -> c_instr c < 256 -> (depth_fields (c_fields c) <= S fuel)%nat ->
+  canon_cmd c v = Some b ->
+  enc_cmd c v = Ok b /\ parse_enum fuel vs b = Ok (N.of_nat k, v).
+Proof.
+  intros Hnd Hk Hc Hi Hf Hcan. destruct (canon_cmd_roundtrip c v b Hcan) as [Henc Hdec]. split; [exact Henc|].
+  specialize (Hdec fuel [] Hf). rewrite app_nil_r in Hdec.
+  (* the first two bytes are the class and the instruction *)
+  assert (Hb : exists rest, b = c_class c :: c_instr c :: rest).
+  { unfold canon_cmd in Hcan. destruct (canon_struct (c_fields c) v) as [pl|]; [|discriminate].
+    destruct ((blen pl <=? 65535) && (cf c <? 65536)); [|discriminate].
+    unfold framed_enc in Hcan. destruct (len_ser LAdpu (blen pl)) as [l| | |]; cbn [bind] in Hcan; try discriminate.
+    injection Hcan as <-. unfold tag_enc, cf. cbn [app].
+    replace ((c_class c * 256 + c_instr c) / 256 mod 256) with (c_class c) by lia.
+    replace ((c_class c * 256 + c_instr c) mod 256) with (c_instr c) by lia. eexists. reflexivity. }
+  destruct Hb as [rest ->].
+  rewrite (dispatch_complete fuel vs (c_class c) (c_instr c) rest k nm c Hnd Hk eq_refl eq_refl), Hdec. reflexivity.
+Qed.
